@@ -202,11 +202,17 @@ def replay_cases(cases, name):
         by_input.setdefault(json.dumps(replay.rec_split(r['input'])), []).append(r)
     out = []
     gi = 0
+    in_order = len(recs) == len(good)   # rustc expands the invocations of a crate in source order
     for c in cases:
         if not c or 'error' in c:
             out.append(('error', (c or {}).get('error', 'no case')))
             continue
         cands = by_input.get(json.dumps(c['item_flat']), [])
+        if in_order:
+            r = recs[gi]
+            gi += 1
+            if c['item_flat'] and json.dumps(replay.rec_split(r['input'])) == json.dumps(c['item_flat']):
+                cands = [r]
         if not cands:
             out.append(('norecord', 'the real macro was not invoked on this input (client did not parse?)'))
             continue
